@@ -1879,6 +1879,57 @@ def apply(repo) -> dict:
         if qn[0]:
             repo.reindex()
             new0 = {k: f for k, f in repo.functions.items() if k not in known}
+    # `sorted(xs, key=self._helper)` / `map(_helper, xs)` with a new one-parameter expression helper: the reference is the
+    # function `lambda a: self._helper(a)`, whose body the helper's expression can replace
+    expr1 = {}
+    for k, f in new0.items():
+        ps_ = [p_ for p_ in f.params() if p_ != "self"]
+        if _is_expr_helper(f.node) and len(ps_) == 1 and not f.node.decorator_list:
+            expr1[f.node.name] = k
+    if expr1:
+        eta = [0]
+
+        class Eta(ast.NodeTransformer):
+            def visit_Call(self, c):
+                self.generic_visit(c)
+                def fix(v):
+                    nm = v.attr if isinstance(v, ast.Attribute) and isinstance(v.value, ast.Name) else v.id if isinstance(v, ast.Name) else None
+                    if nm in expr1 and isinstance(getattr(v, "ctx", None), ast.Load):
+                        eta[0] += 1
+                        a = f"_eta{eta[0]}"
+                        hf = new0[expr1[nm]]
+                        hps = hf.params()
+                        env_ = {[p_ for p_ in hps if p_ != "self"][0]: ast.Name(a, ast.Load())}
+                        if hps and hps[0] == "self" and isinstance(v, ast.Attribute):
+                            env_["self"] = v.value
+                        body_ = copy.deepcopy(_body(hf.node)[0].value)
+                        if any(isinstance(y, (ast.Lambda, ast.NamedExpr, ast.ListComp, ast.SetComp, ast.DictComp, ast.GeneratorExp)) for y in ast.walk(body_)):
+                            return v
+
+                        class S_(ast.NodeTransformer):
+                            def visit_Name(self, x):
+                                return copy.deepcopy(env_[x.id]) if x.id in env_ and isinstance(x.ctx, ast.Load) else x
+                        lam = ast.Lambda(ast.arguments([], [ast.arg(a)], None, [], [], None, []), S_().visit(body_))
+                        for y in ast.walk(lam):
+                            ast.copy_location(y, v)
+                        return lam
+                    return v
+                if callee_name_of(c) in ("sorted", "min", "max", "map", "filter", "sort"):
+                    c.args = [fix(a) if i > 0 or callee_name_of(c) in ("map", "filter") else a for i, a in enumerate(c.args)]
+                    for kw in c.keywords:
+                        if kw.arg == "key":
+                            kw.value = fix(kw.value)
+                return c
+
+        def callee_name_of(c):
+            return c.func.id if isinstance(c.func, ast.Name) else c.func.attr if isinstance(c.func, ast.Attribute) else None
+        for f in list(repo.functions.values()):
+            if f.key in new0:
+                continue
+            Eta().visit(f.node)
+            ast.fix_missing_locations(f.node)
+        if eta[0]:
+            repo.reindex()
     # `xs = [v for a in A if (v := helper(a)) is not None]` with a new multi-statement helper: a loop with the call as a
     # statement of its own, which the helper's body can replace
     multi0 = {k for k, f in new0.items() if eligible(f.node) and not _is_expr_helper(f.node)}
